@@ -42,6 +42,8 @@ pub enum Case {
     /// (all-lower-case program, the same program with every occurrence of the variable name in
     /// its own letter case): same values line by line
     VarProgram(String, String),
+    /// (language, lower-case line, re-cased line): same value
+    LangLine(String, String, String),
 }
 
 fn recase(s: &str, how: u8) -> String {
@@ -195,6 +197,24 @@ impl Prop for C16 {
             ));
         }
         f.push(Family::new(
+            "month-case-all-languages",
+            Mode::Full,
+            "'12 <month> 2021' and '<month> 12, 2021' style dates for every configured month name (long, short, every synonym) of every configured language, the name written lower, UPPER, Capitalised and aLtErNaTiNg (names containing a dotless i are left out: their upper-case form belongs to a locale-specific case pair): same date as the lower-case spelling",
+            move |ch| {
+                let langs = crate::spec::spec().languages.clone();
+                let l = ch.pick(&langs).clone();
+                let m = 1 + ch.choose(12) as i64;
+                let names = super::c09::month_names(&l, m);
+                let name = ch.pick(&names).clone();
+                let how = 1 + ch.choose(3) as u8;
+                if name.contains('ı') || name.contains('İ') {
+                    return None;
+                }
+                let re = recase(&name, how);
+                Some(Case::LangLine(l, format!("12 {} 2021", name.to_lowercase()), format!("12 {} 2021", re)))
+            },
+        ));
+        f.push(Family::new(
             "variable-case-programs",
             Mode::Full,
             "programs that bind, re-bind and use one name ('total', 'monthly rent'): 'N = 10 / N = 20 / N + 1', 'N = 1 / N = N + 1 / N * 10', 'N = 5 / x = N * 2 / N = 7 / x + N', every occurrence of the name independently in lower, UPPER or Capitalised case (also the binding occurrences): same values as the all-lower-case program",
@@ -252,6 +272,25 @@ impl Prop for C16 {
                         if o.slots.len() != 1 || o.slots[0] != Slot::Empty {
                             v.violation = Some("a line of blanks and/or a comment does not evaluate to nothing".into());
                         }
+                    }
+                }
+                v
+            }
+            Case::LangLine(lang, original, rewritten) => {
+                let a = obs::eval(calc, lang, original);
+                let b = obs::eval(calc, lang, rewritten);
+                let mut v = Verdict { input: format!("[{}] {}", lang, rewritten), class: "rewrite-compared", compared: true, expected: format!("{} -> {}", original, a.brief()), observed: b.brief(), evals: 2, ..Default::default() };
+                match (a.single(), b.single()) {
+                    (Some(Slot::Ok { val: va, .. }), Some(Slot::Ok { val: vb, .. })) if obs::val_close(va, vb, 1e-12) => {}
+                    (Some(Slot::Ok { .. }), _) => {
+                        if let Run::Panic(p) = &b {
+                            v.site = Some(p.site.clone());
+                        }
+                        v.violation = Some("changing the letter case of a month name changed the value".into());
+                    }
+                    _ => {
+                        v.class = "not-evaluable";
+                        v.compared = false;
                     }
                 }
                 v
